@@ -399,6 +399,14 @@ func (r *attachRun) step(st AttachStep) string {
 			case <-r.closeCli:
 				return "close.clients"
 			case pt := <-r.closerArr:
+				// with nothing to wait for the closer runs on to its next schedule point at once: both channels are
+				// ready and select picks either. The listener was closed first; the arrival is kept for the next step.
+				select {
+				case <-r.closeCli:
+					r.closerArr <- pt
+					return "close.clients"
+				default:
+				}
 				return pt
 			case <-time.After(attachWait):
 				return "timeout"
